@@ -56,14 +56,6 @@ Next == \/ phase = "build" /\ src = "dsl" /\ \E c \in Calls(s.t) : Declare(c)
 \* chains that reach the same schema are one state
 View == <<s, phase, tape>>
 
-KnownGen(x) ==
-  \E y \in SubSchemas(x) :
-     \/ DEV_FloatGridTruncates /\ SigFloatGrid(y)
-     \/ DEV_DefaultMaxBelowMin /\ SigDefaultBound(y)
-     \/ DEV_ListEllipsisLenIgnored /\ SigListEllLen(y)
-     \/ SigEmptyAlphabet(y)
-     \/ SigFloatGrid(y) /\ IsSome(y.min) /\ IsSome(y.max)      \* F5: no grid point in [min, max]
-
 (***************************************************************************)
 (* C01  generated data validates                                           *)
 (***************************************************************************)
